@@ -137,10 +137,23 @@ def post_apply(ctx, call):
         return
     if call.exc is not None:
         Mi, cond = xform._inv(t.array) if t.free_indices == 0 else (1, 1.0)
-        if Mi is not None and cond < 1e8:
+        if _tiny_representative(obj, t) and type(call.exc).__name__ in ("LinearDependenceError", "NotCoplanar"):
+            ctx.skip("apply", "operand or image in a representative below 1e-2 (the library's absolute tolerances: stated domain limit)")
+        elif Mi is not None and cond < 1e8:
             ctx.judge("apply", False, [t, obj], what=f"apply raised {type(call.exc).__name__}: {call.exc}", op="apply", feat={"cls": type(obj).__name__, "exc": type(call.exc).__name__})
         return
     check_image(ctx, "apply", t, obj, call.result, "apply")
+
+
+def _tiny_representative(obj, t):
+    """The operand, or its image under t, has a position whose homogeneous coordinates are all below 1e-2 in modulus."""
+    try:
+        a = np.abs(np.asarray(obj.array, dtype=complex))
+        rows = a.reshape(-1, a.shape[-1]).max(axis=-1)
+        m = np.abs(np.asarray(t.array, dtype=complex)).max()
+        return bool(rows.min() < 1e-2 or rows.min() * m < 1e-2)
+    except Exception:
+        return False
 
 
 def post_inverse(ctx, call):
@@ -281,7 +294,12 @@ def g_words(ctx, rng, i):
             try:
                 cur = gens[ch] * cur if rng.random() < 0.5 else gens[ch].apply(cur)
             except Exception as e:
-                ctx.judge("word", False, [obj, word], what=f"applying {ch} of the word {word} raised {type(e).__name__}: {e}", op="word", feat={"cls": type(obj).__name__})
+                if _tiny_representative(cur, gens[ch]) and type(e).__name__ in ("LinearDependenceError", "NotCoplanar"):
+                    # the homogeneous coordinates have shrunk along the history (inverse matrices with entries 1/det): the dependence tests of
+                    # the library are absolute -- stated domain limit
+                    ctx.skip("word", "representative below 1e-2 along the history (absolute tolerances: stated domain limit)")
+                else:
+                    ctx.judge("word", False, [obj, word], what=f"applying {ch} of the word {word} raised {type(e).__name__}: {e}", op="word", feat={"cls": type(obj).__name__})
                 ok_run = False
                 break
             prod = mats[ch].astype(complex) @ prod
